@@ -24,6 +24,8 @@ import (
 	"github.com/bnb-chain/tss-lib/v2/tss"
 )
 
+const paillierBitsLen = 2048
+
 func (round *round4) Start() *tss.Error {
 	if round.started {
 		return round.WrapError(errors.New("round already started"))
@@ -62,6 +64,14 @@ func (round *round4) Start() *tss.Error {
 			r2msg1.UnmarshalNTilde(),
 			r2msg1.UnmarshalH1(),
 			r2msg1.UnmarshalH2()
+		// the same size requirements as in key generation (round 2): moduli of another size are refused before any proof
+		// is verified with them (an oversized modulus would keep the verifiers busy for hours, an undersized one is weak)
+		if paiPK.N.BitLen() != paillierBitsLen {
+			return round.WrapError(errors.New("got paillier modulus with insufficient bits for this party"), msg.GetFrom())
+		}
+		if NTildej.BitLen() != paillierBitsLen {
+			return round.WrapError(errors.New("got NTildej with insufficient bits for this party"), msg.GetFrom())
+		}
 		if H1j.Cmp(H2j) == 0 {
 			return round.WrapError(errors.New("h1j and h2j were equal for this party"), msg.GetFrom())
 		}
